@@ -450,6 +450,9 @@ def run_case_ls(ctx, hcmd, dcmd, ops, timeout=120, stats=None):
         elif t[0] == "boxdir" and m:
             n = int(m.group(1).split(",")[0])
             dops.append("xboxdir %d %s %s %s" % (n, t[1], ",".join(t[2:]), m.group(1).split(",", 1)[1])); expect.append("verdict")
+        elif t[0] in ("init", "step") and kind == "trn" and m:
+            # trust-region Newton: one-step refinement against Model/TrustRegion.lean
+            dops.append("xtrn " + t[0] + " " + m.group(1)); expect.append("verdict")
         elif t[0] in ("init", "step") and kind in LS_KINDS and m:
             dops.append(("xinit " if t[0] == "init" else "xstep ") + m.group(1) + (" " + mbx.group(1) if mbx and t[0] == "step" else ""))
             expect.append("verdict")
